@@ -33,6 +33,13 @@ type Query {
   ratio: Float
   self: Query
   fail: String
+  box(in: Box): String
+}
+
+input Box {
+  d: [Int]
+  name: String = "box"
+  inner: Box
 }
 
 interface Node {
@@ -145,6 +152,22 @@ func (q *Query) Nodes() []interface{} {
 	return []interface{}{&Other{ID: "o3"}, q.Items[1]}
 }
 
+// BoxIn is the Go type registered for the input type Box.
+type BoxIn struct {
+	D     []int
+	Name  string
+	Inner *BoxIn
+}
+
+// Box takes a registered input type.
+func (q *Query) Box(in *BoxIn) string {
+	called("Query.Box")
+	if in == nil {
+		return "no box"
+	}
+	return fmt.Sprintf("%s%v", in.Name, in.D)
+}
+
 // Fail always fails.
 func (q *Query) Fail() (string, error) { return "", fmt.Errorf("always fails") }
 
@@ -190,6 +213,9 @@ func NewRoot() (*ggql.Root, *Root, error) {
 	if err := root.ParseString(SDL); err != nil {
 		return nil, nil, err
 	}
+	if err := root.RegisterType(&BoxIn{}, "Box"); err != nil {
+		return nil, nil, err
+	}
 	return root, r, nil
 }
 
@@ -220,4 +246,6 @@ var Requests = []struct {
 	{`mutation { bump(by: 3) }`, nil},
 	{`{ pick(i: 1) { id } }`, nil},
 	{`{ add(a: 1, b: 2) }`, nil},
+	{`{ box(in: {d: [1, 2], name: "n"}) }`, nil},
+	{`query($b: Box){ box(in: $b) }`, map[string]interface{}{"b": map[string]interface{}{"d": []interface{}{float64(3)}}}},
 }
